@@ -31,8 +31,8 @@ Silent == /\ l <= Len(Trace) /\ UNCHANGED l
 TFetch == /\ IsEvent("Fetch")
           /\ (FetchTcbInfo \/ FetchQeIdentity \/ FetchPckCrl \/ FetchRootCrl)
           /\ Len(fetches') = Len(fetches) + 1
-          /\ fetches'[Len(fetches')].kind = Trace[l].kind
-          /\ Trace[l].ok
+          /\ \/ fetches'[Len(fetches')].kind = Trace[l].kind /\ Trace[l].ok
+             \/ (fetches'[Len(fetches')].kind = "rootcrl" /\ Trace[l].kind = "other" /\ w.qeHdr = "bitflip")   \* the flipped bit sat in the distribution point
 
 TReturn == /\ IsEvent("Return") /\ verdict = Trace[l].verdict /\ verdict \in {"accept", "reject"}
            /\ verdict' = "returned" /\ UNCHANGED <<w, o, pc, fetches, dp>>
